@@ -22,6 +22,14 @@ pub mod misc;
 pub mod rate_reporter;
 pub mod types;
 
+// Verification hook (guard: cfg(kani)): the logging macro expands to nothing under the Kani model checker.
+#[cfg(kani)]
+#[macro_export]
+macro_rules! log {
+    ($($t:tt)*) => {};
+}
+
+#[cfg(not(kani))]
 #[macro_export]
 macro_rules! log {
         ($level:ident, $log_message:expr) => {
